@@ -340,16 +340,53 @@ ASSUME_SCAN = re.compile(r"\b(assume\s*\(|admit\s*\(|external_body|assume_specif
                          r"external_type_specification|#\[verifier::external\]|axiom)")
 
 
-def scan_assumptions(unit):
-    tmpl = os.path.join(VERIF, "verus", "units", unit + ".rs.tmpl")
-    out = []
-    files = [tmpl]
+def _unit_files(tmpl, seen=None):
+    """the template and every file it includes, recursively"""
+    seen = seen if seen is not None else []
+    if tmpl in seen or not os.path.exists(tmpl):
+        return seen
+    seen.append(tmpl)
     for ln in open(tmpl):
         m = re.match(r"^\s*//@include\s+(\S+)", ln)
         if m:
-            files.append(os.path.join(os.path.dirname(tmpl), m.group(1)))
-    for fpath in files:
-        lines = open(fpath).read().split("\n")
+            _unit_files(os.path.join(os.path.dirname(tmpl), m.group(1)), seen)
+    return seen
+
+
+def _bodyless_trait_fns(text):
+    """(trait, fn) pairs for exec/proof methods declared in a `trait` block with a contract but no body: the unit ASSUMES them"""
+    out = []
+    for tm in re.finditer(r"^(?:pub\s+)?trait\s+(\w+)[^{]*\{", text, re.M):
+        depth, i = 1, tm.end()
+        while i < len(text) and depth:
+            depth += {"{": 1, "}": -1}.get(text[i], 0)
+            i += 1
+        block = text[tm.end():i]
+        for fm in re.finditer(r"^\s*(?:proof\s+)?fn\s+(\w+)", block, re.M):
+            if re.search(r"\bspec\s+fn\s+%s\b" % fm.group(1), block[max(0, fm.start() - 12):fm.end()]):
+                continue
+            d, j = 0, fm.end()
+            while j < len(block):
+                c = block[j]
+                if c in "([":
+                    d += 1
+                elif c in ")]":
+                    d -= 1
+                elif d == 0 and c == ";":
+                    out.append((tm.group(1), fm.group(1)))
+                    break
+                elif d == 0 and c == "{":
+                    break
+                j += 1
+    return out
+
+
+def scan_assumptions(unit):
+    tmpl = os.path.join(VERIF, "verus", "units", unit + ".rs.tmpl")
+    out = []
+    for fpath in _unit_files(tmpl):
+        text = open(fpath).read()
+        lines = text.split("\n")
         for k, ln in enumerate(lines):
             if ln.strip().startswith("//") and not ln.strip().startswith("//@"):
                 continue
@@ -364,6 +401,10 @@ def scan_assumptions(unit):
                         nxt = lines[j].strip()[:110]
                         break
                 out.append("verus/%s: %s  [%s]" % (os.path.relpath(fpath, os.path.join(VERIF, "verus")), m.group(1).strip(" ("), nxt or ctx[:110]))
+        code = "\n".join(l for l in lines if not l.strip().startswith("//"))
+        for tr, fn in _bodyless_trait_fns(code):
+            out.append("verus/%s: trait-level contract without body (assumed in this unit; for Mer/Kmer/Vmer it is the seam Kani discharges per shipped type)  [trait %s :: fn %s]"
+                       % (os.path.relpath(fpath, os.path.join(VERIF, "verus")), tr, fn))
     return out
 
 
